@@ -363,6 +363,70 @@ func fmtNums(xs []float64) []string {
 	return o
 }
 
+// insertRead: run the script again with one extra read ($1, $(-1), NF or a full view) at a
+// random position; every later line of the transcript must be what it was.
+func insertRead(s script, impl []string, r *hx.Rand) *hx.Failure {
+	pos := r.Intn(len(s.Ops) + 1)
+	reads := []op{{K: "G", I: idx{Kind: 'c', X: 1}}, {K: "G", I: idx{Kind: 'c', X: -1}}, {K: "N"}, {K: "V"}, {K: "G", I: idx{Kind: 'n', D: 0}}}
+	rd := reads[r.Intn(len(reads))]
+	return insertReadAt(s, impl, pos, rd)
+}
+
+// isBig: the script builds a record of 10^6 fields (slow to run twice)
+func isBig(s script) bool {
+	for _, o := range s.Ops {
+		if (o.K == "S" || o.K == "M") && o.I.Kind == 'c' && float64(o.I.X) == 1000000 {
+			return true
+		}
+		if o.K == "W" && float64(o.V) == 1000000 {
+			return true
+		}
+	}
+	return false
+}
+
+func insertReadAt(s script, impl []string, pos int, rd op) *hx.Failure {
+	// the splitter of the input is fixed by the first getline: do not read before it
+	first := -1
+	for i, o := range s.Ops {
+		if o.K == "R" || o.K == "L" {
+			first = i
+			break
+		}
+	}
+	if first < 0 || pos <= first || pos > len(impl) {
+		return nil // (also: nothing to compare if the script had already stopped before pos)
+	}
+	var t script
+	t.Ops = append(t.Ops, s.Ops[:pos]...)
+	t.Ops = append(t.Ops, rd)
+	t.Ops = append(t.Ops, s.Ops[pos:]...)
+	got := runImpl(t)
+	class := "read-inserted"
+	for _, o := range s.Ops[pos:] {
+		if o.K == "P" || o.K == "I" {
+			class = "read-inserted-before-rs-or-inputmode-change"
+		}
+	}
+	for k := pos; k < len(impl) || k+1 < len(got); k++ {
+		a, b := "(output ended)", "(output ended)"
+		if k < len(impl) {
+			a = impl[k]
+		}
+		if k+1 < len(got) {
+			b = got[k+1]
+		}
+		if a != b {
+			d := detail(t, got, k+1, a, b)
+			d["inserted_at"] = pos
+			d["inserted_read"] = rd.wire()
+			d["transcript_without_the_read"] = strings.Join(impl, " | ")
+			return &hx.Failure{Class: class, Oracle: "an inserted read changes no later output", Detail: d}
+		}
+	}
+	return nil
+}
+
 func replay(o hx.Opts) {
 	b, err := os.ReadFile(o.Replay)
 	if err != nil {
@@ -396,6 +460,17 @@ func replay(o hx.Opts) {
 		}
 	}
 	fails := checkScript(s, impl)
+	if doc.Failure.Oracle == "an inserted read changes no later output" {
+		// s is the script WITH the read; remove it and compare again
+		pos := int(doc.Failure.Detail["inserted_at"].(float64))
+		var orig script
+		orig.Ops = append(orig.Ops, s.Ops[:pos]...)
+		orig.Ops = append(orig.Ops, s.Ops[pos+1:]...)
+		fails = nil
+		if f := insertReadAt(orig, runImpl(orig), pos, s.Ops[pos]); f != nil {
+			fails = append(fails, *f)
+		}
+	}
 	if len(fails) == 0 {
 		fmt.Println("replay: the property's equations hold on this script now")
 		os.Exit(0)
@@ -416,6 +491,7 @@ func main() {
 	rep.Rule = "scripts of record operations: every script of length <= 2 (quick) / <= 3 (thorough) over a 14-op alphabet, then random scripts of 1..12 ops (after a 3-op preamble that fixes the input splitter) over: record arrival, $0 assignment, field reads/writes with indexes from {0,+-1,+-2,NF+d,-NF+d,0.5,1e6,1e6+1,2^31,2^63,-2^63,1e30,NaN}, getline $i, sub/gsub/append/++/+= on a field, NF reads, NF assignments (integers, fractions, strings, negative, 1e6, 1e6+1, 2^63), NF++/NF+=d, FS from {space, single bytes, multi-byte char, empty, fixed and random regex ASTs, non-compiling}, OFS, RS (newline/empty), INPUTMODE/OUTPUTMODE; texts with blank runs, tabs, NBSP, VT, CR, newlines, invalid UTF-8, empty. 60% of random scripts avoid the input classes of the known findings so that everything else is checked to the end. distinct = distinct model request line; non-trivial = at least one mutating operation"
 	r := hx.NewRand(o.Seed)
 	scripts := genScripts(o, r)
+	nFixed := len(fixedScripts())
 	lines := make([]string, len(scripts))
 	for i, s := range scripts {
 		lines[i] = s.wire()
@@ -450,6 +526,21 @@ func main() {
 		rep.SearchEvals++
 		for _, f := range checkScript(s, impl) {
 			rep.Fail(f)
+		}
+		// metamorphic: a read inserted anywhere changes nothing the rest of the script prints
+		if i < nFixed && !isBig(s) {
+			// the hand-written scripts: a read of $1 at every position
+			for pos := 0; pos <= len(s.Ops); pos++ {
+				rep.SearchEvals++
+				if f := insertReadAt(s, impl, pos, op{K: "G", I: idx{Kind: 'c', X: 1}}); f != nil {
+					rep.Fail(*f)
+				}
+			}
+		} else if i%2 == 0 && !isBig(s) {
+			rep.SearchEvals++
+			if f := insertRead(s, impl, r); f != nil {
+				rep.Fail(*f)
+			}
 		}
 	}
 	rep.Write(o.Out)
